@@ -251,7 +251,8 @@ func (t *ArrayType) Parameters() []px.Value {
 	}
 
 	params := make([]px.Value, 0)
-	if !t.typ.Equals(DefaultAnyType(), nil) {
+	// Array[0, 0] denotes the empty array type, which has the element type Unit
+	if !t.typ.Equals(DefaultAnyType(), nil) || *t.size == *IntegerTypeZero {
 		params = append(params, t.typ)
 	}
 	if *t.size != *IntegerTypePositive {
